@@ -46,7 +46,7 @@ ASSUMPTIONS = [
 KERNEL_SAMPLE = {"quick": 120, "thorough": 1000}
 KERNEL_MAXLEN = 2500
 TRUSTED_BASE = ["lib/scheme_ref.py: reference interpreter written from R7RS (an oracle used to classify outputs, not a proof)"]
-MODEL_VOCAB_WIDE = False      # flip when the merged model has all builtins: wide sessions then go three-way
+MODEL_VOCAB_WIDE = True       # the merged model has the list/vector/predicate builtins: wide sessions go three-way
 
 MANIFEST = dict(
     text="Coq theorems (coq/Props/C01.v) about the hand-written model of the real pipeline (macro expansion over the GENERATED prelude, compiler, VM): bytecode shape of applications (operand order, CALL protocol) and of `if` (tail flag inherited), refutation witnesses for the recorded defect classes computed in-kernel; the semantic compile-correctness theorem is OPEN (stated in the file) — the mechanisms it would compose are proved under C02 (scoping), C04 (frames), C05 (continuations), C07/C13 (run loop). Tie: three-way differential on generated sessions (implementation / extracted model / vm_compute sub-sample); the implementation's own output is classified against an independent reference interpreter written from R7RS (lib/scheme_ref.py), which is an oracle, not a proof.",
